@@ -5,6 +5,7 @@
 import PS.Model.Enum.ConstantDelay
 import PS.Proofs.Enum.CDQueue
 import PS.Proofs.Enum.CDSucc
+import PS.Proofs.Enum.CDFilter
 namespace PS.CD
 variable {α : Type}
 
@@ -678,5 +679,504 @@ theorem nextLoop_sound (E : Env α) (fuel : Nat) : ∀ (k : Nat) (s : St α) (n 
           rw [← h.1, ← h.2]
           exact ⟨⟨h1, trivial⟩, by simp⟩
         · exact ih _ _ _ _ _ _ h h1 (by simp)
+
+/-! ### the prologue: `__init__`, `_init_non_terminal_`, `_reevaluate_`, `__compute_bounds__` -/
+
+theorem popAll_spec : ∀ (f : Nat) (q : Q α) (acc out : List (CT α)) (q1 : Q α), QWF q → popAll q f acc = some (out, q1) →
+    QWF q1 ∧ (∀ t ∈ out, t ∈ acc ∨ ∀ cb ∈ t.combs, cb ∈ q.contents) ∧ (∀ cb ∈ q1.contents, cb ∈ q.contents) := by
+  intro f
+  induction f with
+  | zero => intro q acc out q1 _ h; simp [popAll] at h
+  | succ f ih =>
+    intro q acc out q1 hq h
+    rw [popAll] at h
+    split at h
+    · simp only [Option.some.injEq, Prod.mk.injEq] at h
+      obtain ⟨h1, h2⟩ := h; subst h1; subst h2
+      exact ⟨hq, fun t ht => Or.inl ht, fun cb hcb => hcb⟩
+    · split at h
+      · simp at h
+      · rename_i ct q' hpop
+        obtain ⟨hq', _, hperm, _⟩ := qwf_pop q q' ct hq hpop
+        obtain ⟨h1, h2, h3⟩ := ih q' _ out q1 hq' h
+        refine ⟨h1, ?_, fun cb hcb => hperm.mem_iff.mpr (List.mem_append_right _ (h3 cb hcb))⟩
+        intro t ht
+        rcases h2 t ht with h4 | h4
+        · rcases List.mem_append.mp h4 with h5 | h5
+          · exact Or.inl h5
+          · simp only [List.mem_singleton] at h5; subst h5
+            exact Or.inr fun cb hcb => hperm.mem_iff.mpr (List.mem_append_left _ hcb)
+        · exact Or.inr fun cb hcb => hperm.mem_iff.mpr (List.mem_append_right _ (h4 cb hcb))
+
+theorem pushAll_spec (A : Arith α) (b : Bool) : ∀ (es : List (CT α)) (q q' : Q α), QWF q → pushAll A b es q = some q' →
+    QWF q' ∧ ∀ cb ∈ q'.contents, cb ∈ q.contents ∨ ∃ e ∈ es, cb ∈ e.combs
+  | [], q, q', hq, h => by
+    simp only [pushAll, Option.some.injEq] at h; subst h
+    exact ⟨hq, fun cb hcb => Or.inl hcb⟩
+  | e :: es, q, q', hq, h => by
+    rw [pushAll] at h
+    split at h
+    · simp at h
+    · rename_i q1 hp
+      obtain ⟨hq1, _, hperm, _⟩ := qwf_push A q q1 e b hq hp
+      obtain ⟨h1, h2⟩ := pushAll_spec A b es q1 q' hq1 h
+      refine ⟨h1, ?_⟩
+      intro cb hcb
+      rcases h2 cb hcb with h3 | ⟨e', he', h3⟩
+      · rcases List.mem_append.mp (hperm.mem_iff.mp h3) with h4 | h4
+        · exact Or.inl h4
+        · exact Or.inr ⟨e, List.mem_cons_self, h4⟩
+      · exact Or.inr ⟨e', List.mem_cons_of_mem _ he', h3⟩
+
+theorem mem_insertCT (A : Arith α) (x y : CT α) : ∀ (l : List (CT α)), y ∈ insertCT A x l → y = x ∨ y ∈ l
+  | [], h => by simp [insertCT] at h; exact Or.inl h
+  | z :: zs, h => by
+    simp only [insertCT] at h
+    split at h
+    · rcases List.mem_cons.mp h with h1 | h1
+      · exact Or.inl h1
+      · exact Or.inr h1
+    · rcases List.mem_cons.mp h with h1 | h1
+      · exact Or.inr (by rw [h1]; exact List.mem_cons_self)
+      · rcases mem_insertCT A x y zs h1 with h2 | h2
+        · exact Or.inl h2
+        · exact Or.inr (List.mem_cons_of_mem _ h2)
+
+theorem mem_sortCT (A : Arith α) (l : List (CT α)) (y : CT α) (h : y ∈ sortCT A l) : y ∈ l := by
+  unfold sortCT at h
+  have key : ∀ (l acc : List (CT α)), y ∈ l.foldl (fun acc x => insertCT A x acc) acc → y ∈ acc ∨ y ∈ l := by
+    intro l
+    induction l with
+    | nil => intro acc h; exact Or.inl h
+    | cons x xs ih =>
+      intro acc h
+      simp only [List.foldl_cons] at h
+      rcases ih _ h with h1 | h1
+      · rcases mem_insertCT A x y acc h1 with h2 | h2
+        · exact Or.inr (by rw [h2]; exact List.mem_cons_self)
+        · exact Or.inl h2
+      · exact Or.inr (List.mem_cons_of_mem _ h1)
+  rcases key l [] h with h1 | h1
+  · simp at h1
+  · exact h1
+
+theorem reevalDer_sinv {E : Env α} (b : Bool) {s s' : St α} {args : List NT} (h : reevalDer E.A b s args = some s')
+    (hs : SInv E s) : SInv E s' := by
+  unfold reevalDer at h
+  split at h
+  · simp only [Option.some.injEq] at h; subst h; exact hs
+  · split at h
+    · simp at h
+    · rename_i q hq
+      obtain ⟨hwf, hlen⟩ := hs.2.2 args q hq
+      split at h
+      · simp at h
+      · rename_i popped q1 hpa
+        obtain ⟨hq1, hout, _⟩ := popAll_spec _ q [] popped q1 hwf hpa
+        simp only at h
+        split at h
+        · simp at h
+        · rename_i elems he
+          split at h
+          · simp at h
+          · rename_i q2 hpu
+            obtain ⟨hq2, hc2⟩ := pushAll_spec E.A b _ _ q2 (qwf_clear q1 hq1).1 hpu
+            split at h
+            · split at h
+              · simp at h
+              · simp only [Option.some.injEq] at h; subst h
+                refine sinv_of_eq rfl rfl rfl (sinv_setQueueDer (args := args) hs hq2 ?_)
+                intro cb hcb
+                rcases hc2 cb hcb with h1 | ⟨e, he1, h1⟩
+                · simp [Q.contents, (qwf_clear q1 hq1).2] at h1
+                · have he2 : e ∈ elems := mem_sortCT E.A elems e (by simpa using he1)
+                  -- the combs of `elems` are those of `popped`
+                  have : ∃ t ∈ popped, e.combs = t.combs := by
+                    split at he
+                    · simp only [Option.some.injEq] at he; subst he; simp at he2
+                    · split at he
+                      · simp at he
+                      · simp only [Option.some.injEq] at he; subst he
+                        rw [List.mem_map] at he2
+                        obtain ⟨t, ht, rfl⟩ := he2
+                        exact ⟨t, ht, rfl⟩
+                  obtain ⟨t, ht, hte⟩ := this
+                  rw [hte] at h1
+                  rcases hout t ht with h2 | h2
+                  · simp at h2
+                  · exact hlen cb (h2 cb h1)
+            · simp at h
+
+theorem reevalDers_sinv {E : Env α} (b : Bool) : ∀ (rs : List (Sym × (List NT × Int))) (s s' : St α),
+    reevalDers E.A b rs s = some s' → SInv E s → SInv E s'
+  | [], s, s', h, hs => by simp only [reevalDers, Option.some.injEq] at h; subst h; exact hs
+  | (_, (args, _)) :: rest, s, s', h, hs => by
+    rw [reevalDers] at h
+    split at h
+    · simp at h
+    · rename_i s1 h1
+      exact reevalDers_sinv b rest s1 s' h (reevalDer_sinv b h1 hs)
+
+theorem reevalPass_sinv {E : Env α} : ∀ (rs : List (NT × AList Sym (List NT × Int))) (s : St α) (ch : Bool) (s' : St α) (ch' : Bool),
+    reevalPass E rs s ch = some (s', ch') → SInv E s → SInv E s'
+  | [], s, ch, s', ch', h, hs => by
+    simp only [reevalPass, Option.some.injEq, Prod.mk.injEq] at h; rw [← h.1]; exact hs
+  | (S, rs) :: rest, s, ch, s', ch', h, hs => by
+    rw [reevalPass] at h
+    split at h
+    · simp at h
+    · rename_i s1 h1
+      have hs1 := reevalDers_sinv E.asserts rs s s1 h1 hs
+      split at h
+      · simp at h
+      · split at h
+        · simp at h
+        · split at h
+          · exact reevalPass_sinv rest s1 ch s' ch' h hs1
+          · simp only at h
+            split at h
+            · split at h
+              · simp at h
+              · exact reevalPass_sinv rest _ true s' ch' h (sinv_of_eq rfl rfl rfl hs1)
+            · simp at h
+
+theorem reevaluate_sinv {E : Env α} : ∀ (f : Nat) (s s' : St α), reevaluate E f s = some s' → SInv E s → SInv E s' := by
+  intro f
+  induction f with
+  | zero => intro s s' h; simp [reevaluate] at h
+  | succ f ih =>
+    intro s s' h hs
+    rw [reevaluate] at h
+    split at h
+    · simp at h
+    · rename_i s1 h1
+      exact ih _ _ h (reevalPass_sinv _ _ _ _ _ h1 hs)
+    · rename_i s1 h1
+      simp only [Option.some.injEq] at h; subst h
+      exact reevalPass_sinv _ _ _ _ _ h1 hs
+
+theorem rebuildQueues_sinv {E : Env α} (values : AList NT Int) : ∀ (keys : List (List NT)) (s s' : St α),
+    rebuildQueues E.A E.asserts values keys s = some s' → SInv E s → SInv E s'
+  | [], s, s', h, hs => by simp only [rebuildQueues, Option.some.injEq] at h; subst h; exact hs
+  | arg :: rest, s, s', h, hs => by
+    rw [rebuildQueues] at h
+    split at h
+    · simp at h
+    · rename_i q hq
+      obtain ⟨hwf, hlen⟩ := hs.2.2 arg q hq
+      split at h
+      · rename_i elems q1 mv hpa _
+        obtain ⟨_, hout, _⟩ := popAll_spec _ q [] elems q1 hwf hpa
+        simp only at h
+        split at h
+        · simp at h
+        · rename_i q0 hnew
+          obtain ⟨hq0, ht0⟩ := qwf_new E.A _ _ q0 hnew
+          split at h
+          · simp at h
+          · rename_i q2 hpu
+            obtain ⟨hq2, hc2⟩ := pushAll_spec E.A E.asserts _ _ q2 hq0 hpu
+            split at h
+            · simp at h
+            · refine rebuildQueues_sinv values rest _ s' h (sinv_setQueueDer (args := arg) hs hq2 ?_)
+              intro cb hcb
+              rcases hc2 cb hcb with h1 | ⟨e, he1, h1⟩
+              · simp [Q.contents, ht0] at h1
+              · have he2 := mem_sortCT E.A elems e he1
+                rcases hout e he2 with h2 | h2
+                · simp at h2
+                · exact hlen cb (h2 cb h1)
+      · simp at h
+
+theorem computeBounds_sinv {E : Env α} {fuel : Nat} {s s' : St α} (h : computeBounds E fuel s = some s') (hs : SInv E s) :
+    SInv E s' := by
+  unfold computeBounds at h
+  split at h
+  · simp at h
+  · split at h
+    · simp at h
+    · exact rebuildQueues_sinv _ _ _ _ h hs
+
+structure IniOK (E : Env α) (f : Nat) : Prop where
+  nt : ∀ s S s', initNT E f s S = some s' → SInv E s → SInv E s'
+  rules : ∀ s S rs s', initRules E f s S rs = some s' → SInv E s → SInv E s'
+  der : ∀ s args s', initDer E f s args = some s' → SInv E s → SInv E s'
+  args : ∀ s as c s' c', initArgs E f s as c = some (s', c') → SInv E s → SInv E s'
+
+theorem ini_all (E : Env α) : ∀ f, IniOK E f := by
+  intro f
+  induction f with
+  | zero =>
+    refine ⟨?_, ?_, ?_, ?_⟩
+    · intro s S s' h; simp [initNT] at h
+    · intro s S rs s' h; simp [initRules] at h
+    · intro s args s' h; simp [initDer] at h
+    · intro s as c s' c' h; simp [initArgs] at h
+  | succ f ih =>
+    refine ⟨?_, ?_, ?_, ?_⟩
+    · intro s S s' h hs
+      rw [initNT] at h
+      split at h
+      · simp at h
+      · split at h
+        · simp only [Option.some.injEq] at h; subst h; exact hs
+        · split at h
+          · simp at h
+          · split at h
+            · simp at h
+            · rename_i s2 h2
+              have hs2 := ih.rules _ _ _ _ h2 (sinv_of_eq (s := s) rfl rfl rfl hs)
+              split at h
+              · simp only [Option.some.injEq] at h; subst h
+                exact sinv_of_eq rfl rfl rfl hs2
+              · simp at h
+    · intro s S rs s' h hs
+      cases rs with
+      | nil => simp only [initRules, Option.some.injEq] at h; subst h; exact hs
+      | cons r rest =>
+        obtain ⟨P, args, w⟩ := r
+        rw [initRules] at h
+        split at h
+        · simp at h
+        · rename_i s1 base hr
+          have hs1 : SInv E s1 := by
+            split at hr
+            · simp only [Option.some.injEq, Prod.mk.injEq] at hr; rw [← hr.1]; exact hs
+            · split at hr
+              · simp at hr
+              · rename_i s1' hd
+                split at hr
+                · simp only [Option.some.injEq, Prod.mk.injEq] at hr; rw [← hr.1]; exact ih.der _ _ _ hd hs
+                · simp at hr
+          split at h
+          · simp at h
+          · exact ih.rules _ _ _ _ h (sinv_of_eq rfl rfl rfl hs1)
+    · intro s args s' h hs
+      rw [initDer] at h
+      split at h
+      · simp at h
+      · split at h
+        · simp only [Option.some.injEq] at h; subst h; exact hs
+        · split at h
+          · simp at h
+          · rename_i s2 cost ha
+            have hs2 := ih.args _ _ _ _ _ ha (sinv_of_eq (s := s) rfl rfl rfl hs)
+            split at h
+            · simp at h
+            · rename_i q hq
+              obtain ⟨hwf, hlen⟩ := hs2.2.2 args q hq
+              split at h
+              · simp at h
+              · rename_i q1 hp
+                obtain ⟨hwf1, _, hperm, _⟩ := qwf_push E.A q q1 _ E.asserts hwf hp
+                split at h
+                · simp at h
+                · rename_i q2 hu
+                  obtain ⟨hwf2, hc2⟩ := qwf_update E.A q1 q2 hwf1 hu
+                  split at h
+                  · simp only [Option.some.injEq] at h; subst h
+                    refine sinv_of_eq rfl rfl rfl (sinv_setQueueDer (args := args) hs2 hwf2 ?_)
+                    intro cb hcb
+                    rw [hc2] at hcb
+                    rcases List.mem_append.mp (hperm.mem_iff.mp hcb) with h1 | h1
+                    · exact hlen cb h1
+                    · simp only [List.mem_singleton] at h1; subst h1; simp
+                  · simp at h
+    · intro s as c s' c' h hs
+      cases as with
+      | nil => simp only [initArgs, Option.some.injEq, Prod.mk.injEq] at h; rw [← h.1]; exact hs
+      | cons Si rest =>
+        rw [initArgs] at h
+        split at h
+        · simp at h
+        · rename_i s1 h1
+          split at h
+          · exact ih.args _ _ _ _ _ h (ih.nt _ _ _ h1 hs)
+          · simp at h
+
+/-- every bank empty, every queue fresh -/
+def FreshSt (s : St α) : Prop :=
+  (∀ S b, AList.lookup S s.bankNt = some b → b = []) ∧ (∀ a b, AList.lookup a s.bankDer = some b → b = []) ∧
+  QueuesOK s.queueDer
+
+theorem fresh_sinv {E : Env α} {s : St α} (h : FreshSt s) : SInv E s := by
+  refine ⟨?_, ?_, h.2.2⟩
+  · intro S b ci l p h1 h2 _
+    rw [h.1 S b h1] at h2; simp at h2
+  · intro a b ci l poss h1 h2 _
+    rw [h.2.1 a b h1] at h2; simp at h2
+
+theorem initDerTables_fresh (A : Arith α) (M : Int) (k : Nat) : ∀ (rs : List (Sym × (List NT × Int))) (s s' : St α),
+    initDerTables A M k rs s = some s' → FreshSt s → FreshSt s'
+  | [], s, s', h, hs => by simp only [initDerTables, Option.some.injEq] at h; subst h; exact hs
+  | (_, (args, _)) :: rest, s, s', h, hs => by
+    rw [initDerTables] at h
+    split at h
+    · exact initDerTables_fresh A M k rest s s' h hs
+    · split at h
+      · simp at h
+      · rename_i q hq
+        refine initDerTables_fresh A M k rest _ s' h ⟨hs.1, ?_, ?_⟩
+        · intro a b hb
+          simp only at hb
+          rw [AList.lookup_insert] at hb
+          split at hb
+          · simp only [Option.some.injEq] at hb; exact hb.symm
+          · exact hs.2.1 a b hb
+        · intro a q2 hq2
+          simp only at hq2
+          rw [AList.lookup_insert] at hq2
+          split at hq2
+          · simp only [Option.some.injEq] at hq2; subst hq2
+            obtain ⟨h1, h2⟩ := qwf_new A M k _ hq
+            exact ⟨h1, by simp [Q.contents, h2]⟩
+          · exact hs.2.2 a q2 hq2
+
+theorem initTables_fresh (A : Arith α) (M : Int) (k : Nat) : ∀ (rs : List (NT × AList Sym (List NT × Int))) (s s' : St α),
+    initTables A M k rs s = some s' → FreshSt s → FreshSt s'
+  | [], s, s', h, hs => by simp only [initTables, Option.some.injEq] at h; subst h; exact hs
+  | (S, rs) :: rest, s, s', h, hs => by
+    rw [initTables] at h
+    split at h
+    · simp at h
+    · rename_i s2 h2
+      refine initTables_fresh A M k rest s2 s' h (initDerTables_fresh A M k rs _ s2 h2 ⟨?_, hs.2.1, hs.2.2⟩)
+      intro S2 b hb
+      simp only at hb
+      rw [AList.lookup_insert] at hb
+      split at hb
+      · simp only [Option.some.injEq] at hb; exact hb.symm
+      · exact hs.1 S2 b hb
+
+/-- `CDSearch.__init__` establishes the invariant -/
+theorem init_sinv (E : Env α) (s : St α) (h : St.init E = some s) : SInv E s := by
+  unfold St.init at h
+  split at h
+  · simp at h
+  · exact fresh_sinv (initTables_fresh _ _ _ _ _ _ h ⟨by simp, by simp, by intro a q hq; simp at hq⟩)
+
+theorem prologue_sinv (E : Env α) (fuel : Nat) (s s' : St α) (h : prologue E fuel s = some s') (hs : SInv E s) : SInv E s' := by
+  unfold prologue at h
+  split at h
+  · simp at h
+  · rename_i s1 h1
+    split at h
+    · simp at h
+    · rename_i s2 h2
+      exact computeBounds_sinv h (reevaluate_sinv _ _ _ h2 ((ini_all E fuel).nt _ _ _ h1 hs))
+
+/-- **`next(generator)` keeps the invariant and yields only members of the language** -/
+theorem next_sound (E : Env α) (fuel : Nat) (g g' : Gen α) (out : Option Prog) (h : next E fuel g = some (g', out))
+    (hg : GInv E g) : GInv E g' ∧ ∀ p, out = some p → derives E.G E.G.start p = true := by
+  unfold next at h
+  split at h
+  · simp only [Option.some.injEq, Prod.mk.injEq] at h
+    rw [← h.1, ← h.2]; exact ⟨hg, by simp⟩
+  · split at h
+    · simp at h
+    · rename_i s hp
+      exact nextLoop_sound E fuel _ _ _ _ _ _ _ h (prologue_sinv E fuel _ _ hp hg.1) (by simp)
+  · exact nextLoop_sound E fuel _ _ _ _ _ _ _ h hg.1 (by simp)
+  · rename_i n fr hph
+    refine nextLoop_sound E fuel _ _ _ _ _ _ _ h hg.1 ?_
+    intro fr' hfr'
+    simp only [Option.some.injEq] at hfr'; subst hfr'
+    have := hg.2
+    rw [hph] at this
+    exact this
+
+theorem gen_new_ginv (E : Env α) (g : Gen α) (h : Gen.new E = some g) : GInv E g := by
+  unfold Gen.new at h
+  cases hi : St.init E with
+  | none => simp [hi] at h
+  | some s =>
+    simp only [hi, Option.map_some, Option.some.injEq] at h
+    subst h
+    exact ⟨init_sinv E s hi, trivial⟩
+
+theorem lookup_map_key {κ ν : Type} [DecidableEq κ] (f : κ × ν → κ × ν) (hf : ∀ x, (f x).1 = x.1) : ∀ (d : AList κ ν) (k : κ),
+    AList.lookup k (d.map f) = (AList.lookup k d).map (fun v => (f (k, v)).2)
+  | [], k => rfl
+  | (k', v) :: r, k => by
+    have h1 := hf (k', v)
+    simp only [List.map_cons]
+    rw [show f (k', v) = ((f (k', v)).1, (f (k', v)).2) from rfl, h1]
+    simp only [AList.lookup]
+    split
+    · rename_i he; subst he; rfl
+    · exact lookup_map_key f hf r k
+
+/-- `merge_program` keeps the invariant (it only removes programs from banks) -/
+theorem merge_ginv (E : Env α) (g : Gen α) (other : Prog) (ty : Nat) (hg : GInv E g) : GInv E (merge E g other ty) := by
+  have hs := sinv_addDeleted (E := E) other hg.1
+  refine ⟨⟨?_, hs.2.1, hs.2.2⟩, hg.2⟩
+  intro S b ci l p h1 h2 h3
+  simp only [merge] at h1
+  rw [lookup_map_key _ (by intro x; obtain ⟨S, b⟩ := x; simp only; split <;> rfl)] at h1
+  cases hb : AList.lookup S (g.st.addDeleted other).bankNt with
+  | none => simp [hb] at h1
+  | some b0 =>
+    simp only [hb, Option.map_some, Option.some.injEq] at h1
+    split at h1
+    · simp only at h1
+      subst h1
+      rw [lookup_map_key _ (by intro x; rfl)] at h2
+      cases hl : AList.lookup ci b0 with
+      | none => simp [hl] at h2
+      | some l0 =>
+        simp only [hl, Option.map_some, Option.some.injEq] at h2
+        subst h2
+        exact hs.1 S b0 ci l0 p hb hl (removeFirst_sub other l0 p h3)
+    · simp only at h1
+      subst h1
+      exact hs.1 S b0 ci l p hb h2 h3
+
+theorem take_sound (E : Env α) (fuel : Nat) : ∀ (k : Nat) (g : Gen α) (acc : List Prog) (g' : Gen α) (ys : List Prog) (fin : Bool),
+    take E fuel k g acc = some (g', ys, fin) → GInv E g → (∀ p ∈ acc, derives E.G E.G.start p = true) →
+    GInv E g' ∧ ∀ p ∈ ys, derives E.G E.G.start p = true := by
+  intro k
+  induction k with
+  | zero =>
+    intro g acc g' ys fin h hg hacc
+    simp only [take, Option.some.injEq, Prod.mk.injEq] at h
+    rw [← h.1, ← h.2.1]; exact ⟨hg, hacc⟩
+  | succ k ih =>
+    intro g acc g' ys fin h hg hacc
+    rw [take] at h
+    split at h
+    · simp at h
+    · rename_i g1 hn
+      simp only [Option.some.injEq, Prod.mk.injEq] at h
+      rw [← h.1, ← h.2.1]
+      exact ⟨(next_sound E fuel g g1 none hn hg).1, hacc⟩
+    · rename_i g1 p1 hn
+      obtain ⟨h1, h2⟩ := next_sound E fuel g g1 (some p1) hn hg
+      refine ih _ _ _ _ _ h h1 ?_
+      intro p hp
+      rcases List.mem_append.mp hp with h3 | h3
+      · exact hacc p h3
+      · simp only [List.mem_singleton] at h3; subst h3; exact h2 _ rfl
+
+/-- **soundness along every history** of `next` and `merge_program` calls -/
+theorem runHist_sound (E : Env α) (fuel : Nat) : ∀ (acts : List Act) (g : Gen α) (out : List Prog) (g' : Gen α) (ys : List Prog),
+    runHist E fuel acts g out = some (g', ys) → GInv E g → (∀ p ∈ out, derives E.G E.G.start p = true) →
+    GInv E g' ∧ ∀ p ∈ ys, derives E.G E.G.start p = true
+  | [], g, out, g', ys, h, hg, ho => by
+    simp only [runHist, Option.some.injEq, Prod.mk.injEq] at h
+    rw [← h.1, ← h.2]; exact ⟨hg, ho⟩
+  | .merge p t :: rest, g, out, g', ys, h, hg, ho => by
+    rw [runHist] at h
+    exact runHist_sound E fuel rest _ out g' ys h (merge_ginv E g p t hg) ho
+  | .take k :: rest, g, out, g', ys, h, hg, ho => by
+    rw [runHist] at h
+    split at h
+    · simp at h
+    · rename_i g1 ys1 fin ht
+      obtain ⟨h1, h2⟩ := take_sound E fuel k g [] g1 ys1 fin ht hg (by simp)
+      refine runHist_sound E fuel rest g1 _ g' ys h h1 ?_
+      intro p hp
+      rcases List.mem_append.mp hp with h3 | h3
+      · exact ho p h3
+      · exact h2 p h3
 
 end PS.CD
